@@ -81,7 +81,7 @@ class _AEAD:
             raise ValueError('Nonce must be between 8 and 128 bytes')
         if bool(rope.sx_len(data) < 16):
             raise InvalidTag()
-        b = rope.full_view_blob(data) if rope.isrope(data) else None
+        b = rope.decide_full_blob(data, want=lambda bl: 'aead' in bl.meta)
         if b is None or 'aead' not in b.meta or b.meta['aead']['alg'] != self.NAME:
             raise InvalidTag()
         rec = b.meta['aead']
@@ -167,7 +167,7 @@ class PubKey:
         data = _as_bytes(data, 'data')
         e = E()
         e.tags['verify_calls'] = e.tags.get('verify_calls', 0) + 1
-        b = rope.full_view_blob(signature) if rope.isrope(signature) else None
+        b = rope.decide_full_blob(signature, want=lambda bl: 'sig' in bl.meta)
         if b is None or 'sig' not in b.meta:
             raise InvalidSignature()
         rec = b.meta['sig']
@@ -208,7 +208,7 @@ def generate_private_key(curve=None, backend=None):
 
 def load_der_public_key(der, backend=None):
     der = _as_bytes(der, 'data')
-    b = rope.full_view_blob(der) if rope.isrope(der) else None
+    b = rope.decide_full_blob(der, want=lambda bl: isinstance(bl.meta.get('der_of'), PubKey))
     if b is not None and 'der_of' in b.meta and isinstance(b.meta['der_of'], PubKey):
         return b.meta['der_of']
     # arbitrary bytes: either not a key (ValueError) or some foreign key the attacker owns
